@@ -67,17 +67,26 @@ func curGid() uint64 {
 }
 
 var concStackBuf = make([]byte, 1<<20)
+var concScanMu sync.Mutex
 
-func concBlockedState(st string) bool {
-	for _, p := range []string{"chan receive", "chan send", "select", "semacquire", "sync.WaitGroup.Wait", "sync.Cond.Wait"} {
+// concBlockedState: is the goroutine parked on something only another goroutine of the materialisation (or the
+// environment) can change?  "semacquire" counts only for WaitGroup.Wait: the runtime uses semaphores internally too
+// (a probe calling runtime.Stack while the scanner stops the world looks like "semacquire" for a moment).
+func concBlockedState(st, body string) bool {
+	for _, p := range []string{"chan receive", "chan send", "select", "sync.WaitGroup.Wait", "sync.Cond.Wait"} {
 		if strings.HasPrefix(st, p) {
 			return true
 		}
+	}
+	if strings.HasPrefix(st, "semacquire") && strings.Contains(body, "sync.(*WaitGroup).Wait") {
+		return true
 	}
 	return false
 }
 
 func concScan(ignore map[uint64]bool) concSnap {
+	concScanMu.Lock()
+	defer concScanMu.Unlock()
 	n := runtime.Stack(concStackBuf, true)
 	for n == len(concStackBuf) {
 		concStackBuf = make([]byte, 2*len(concStackBuf))
@@ -114,7 +123,7 @@ func concScan(ignore map[uint64]bool) concSnap {
 			snap.libMade++
 		}
 		lb, rb := strings.IndexByte(hdr, '['), strings.LastIndexByte(hdr, ']')
-		if lb >= 0 && rb > lb && concBlockedState(hdr[lb+1:rb]) {
+		if lb >= 0 && rb > lb && concBlockedState(hdr[lb+1:rb], g) {
 			snap.blocked++
 		}
 	}
@@ -305,6 +314,7 @@ type concProbe struct {
 	afterClose  atomic.Bool // Emit started after Close was called
 	closeInEmit atomic.Bool // Close called while an Emit was running
 	closes      atomic.Int32
+	parked      atomic.Bool // the Emit call `parkAt` is waiting for its ctx
 }
 
 func (p *concProbe) Open(ctx context.Context) error {
@@ -347,6 +357,7 @@ func (p *concProbe) Emit(ctx context.Context) (int, error) {
 		runtime.Gosched()
 	}
 	if p.parkAt == k {
+		p.parked.Store(true)
 		<-ctx.Done()
 		p.log.add(fmt.Sprintf("r%dc", g))
 		return 0, ctx.Err()
@@ -804,16 +815,24 @@ func concRunOnce(cc *concCase) concObs {
 				}
 				continue
 			}
-			if cc.cancel > step && !cancelled {
-				// nothing else to do: deliver the scripted cancel now
+			if (cc.cancel > step || r.src.parked.Load()) && !cancelled {
+				// nothing else to do: deliver the scripted cancel now; also when the reader is parked inside Emit
+				// for good (park=k): the terminal legitimately waits for its source, the environment cancels
 				cancelled = true
 				r.log.add("x")
 				r.cancel()
 				obs.trace = append(obs.trace, "x")
-				step = cc.cancel + 1
+				if cc.cancel > step {
+					step = cc.cancel + 1
+				}
 				continue
 			}
 			obs.hang = "deadlock" // everything is blocked, nothing is parked on the environment
+			if os.Getenv("VERIF_CONC_DEBUG") != "" {
+				buf := make([]byte, 1<<20)
+				n := runtime.Stack(buf, true)
+				fmt.Fprintf(os.Stderr, "DEADLOCK snapshot relevant=%d blocked=%d\n%s\n", snap.relevant, snap.blocked, buf[:n])
+			}
 			break
 		}
 		pick := 0
@@ -920,6 +939,9 @@ func execConc(prop string) func(string) string {
 				counts[o.res]++
 				if o.leak > 0 || o.hang != "" {
 					leaks++
+					if os.Getenv("VERIF_CONC_DEBUG") != "" {
+						fmt.Fprintln(os.Stderr, "trial", i, o.String())
+					}
 				}
 			}
 			return fmt.Sprintf("trials=%d ok=%d other=%d leakhang=%d", cc.trials, counts["ok"],
@@ -942,6 +964,9 @@ func concChild(prop, caseText string) string {
 	defer cancel()
 	cmd := exec.CommandContext(ctx, os.Args[0], "-prop", prop, "-replay", f.Name())
 	cmd.Env = append(os.Environ(), "VERIF_CONC_CHILD=1", "GOMEMLIMIT=1GiB")
+	if os.Getenv("VERIF_CONC_DEBUG") != "" {
+		cmd.Stderr = os.Stderr
+	}
 	outb, err := cmd.Output()
 	for _, line := range strings.Split(string(outb), "\n") {
 		if strings.HasPrefix(line, "obs ") {
